@@ -648,7 +648,12 @@ func buildWorkflow[I, O any](sp *Spec, path string, bo *BuildOpts) (*compose.Wor
 			return nil, fmt.Errorf("workflow edge to unknown node %s", e.To)
 		}
 		var maps []*compose.FieldMapping
-		if e.ToKey != "" {
+		switch {
+		case e.FromKey != "" && e.ToKey != "":
+			maps = append(maps, compose.MapFields(e.FromKey, e.ToKey))
+		case e.FromKey != "":
+			maps = append(maps, compose.FromField(e.FromKey))
+		case e.ToKey != "":
 			maps = append(maps, compose.ToField(e.ToKey))
 		}
 		switch {
